@@ -1502,7 +1502,7 @@ void OPNMIDIplay::panic()
     for(uint8_t chan = 0; chan < m_midiChannels.size(); chan++)
     {
         for(uint8_t note = 0; note < 128; note++)
-            realTime_NoteOff(chan, note);
+            noteOff(chan, note, true); // right now: don't wait for the minimal percussion note time
     }
 }
 
